@@ -256,6 +256,151 @@ func init() {
 		Outside:  "datagrams longer than the stated lengths (up to 1024); sequences of more than ~5 small description blocks; the socket receivers (see C16)",
 		Assume:   []string{"obligations: no panic, loop bound length+12 never reached (termination), accepted => consumed <= length, no read of a byte at or beyond the datagram length (engine region check; natively confirmed by re-running with different garbage)"},
 	})
+
+	c02 := func(thorough bool) []Inst {
+		var out []Inst
+		add := func(args ...int64) {
+			out = append(out, Inst{Pkg: "knxnet", Fn: "HarnessC02Service", Args: args})
+		}
+		for _, svc := range []int64{0, 1, 2, 3, 4, 5, 7, 9, 11} {
+			add(svc, 0, 0, 0, 0, 0)
+		}
+		infos := []int64{0, 1, 2, 255}
+		datas := []int64{1, 2, 15, 16, 254}
+		raws := []int64{0, 1, 5}
+		if thorough {
+			infos, datas, raws = nil, nil, nil
+			for i := int64(0); i <= 255; i++ {
+				infos = append(infos, i)
+			}
+			for i := int64(1); i <= 254; i++ {
+				datas = append(datas, i)
+			}
+			for i := int64(0); i <= 40; i++ {
+				raws = append(raws, i)
+			}
+		}
+		for _, svc := range []int64{6, 8} {
+			for kind := int64(0); kind <= 5; kind++ {
+				if thorough {
+					for _, il := range infos {
+						add(svc, kind, il, datas[int(il)%len(datas)], 0, 0)
+					}
+					for _, dl := range datas {
+						add(svc, kind, []int64{0, 1, 9}[dl%3], dl, 0, 0)
+					}
+					continue
+				}
+				for _, il := range infos {
+					for _, dl := range datas {
+						if kind >= 3 && dl != 1 {
+							continue
+						}
+						add(svc, kind, il, dl, 0, 0)
+					}
+				}
+			}
+			for kind := int64(6); kind <= 10; kind++ {
+				for _, rl := range raws {
+					add(svc, kind, 0, rl, 0, 0)
+				}
+			}
+		}
+		fams := []int64{0, 1, 2}
+		names := []int64{0, 1, 29}
+		if thorough {
+			fams, names = nil, nil
+			for i := int64(0); i <= 20; i++ {
+				fams = append(fams, i)
+			}
+			for i := int64(0); i <= 29; i++ {
+				names = append(names, i)
+			}
+		}
+		for _, svc := range []int64{10, 12} {
+			for _, nf := range fams {
+				for _, nl := range names {
+					if thorough && nf%3 != nl%3 {
+						continue
+					}
+					add(svc, 0, 0, 0, nf, nl)
+				}
+			}
+		}
+		return out
+	}
+	reg(&Spec{
+		ID:       "C02",
+		Quick:    func(l *loaded) []Inst { return c02(false) },
+		Thorough: func(l *loaded) []Inst { return c02(true) },
+		Covers:   []string{"C02.end"},
+		Bounds:   "encode->decode of every encodable service type (connect, connection-state, disconnect req/res, tunnelling req/ack, routing indication, search/description req/res) x every cEMI kind (L_Data req/con/ind with application and control units, L_Raw req/con/ind, L_Busmon.ind, unsupported code); all field values symbolic; quick: info length {0,1,2,255}, payload {1,2,15,16,254}, raw {0,1,5}, families {0,1,2}, name length {0,1,29}; thorough: every info length 0..255, payload 1..254, raw 0..40, families 0..20, names 0..29",
+		Outside:  "the decode->re-encode->decode direction for arbitrary accepted byte strings is decided for cEMI L_Data frames by C11 (byte layout both ways) and for datapoints by C06; lengths not enumerated in the quick tier",
+		Assume:   []string{"validity predicate: first payload byte < 64, unnumbered units carry sequence 0, hardware address 6 bytes, friendly name of non-NUL Latin-1 characters, DIB type octets 1 and 2", "x/text ISO-8859-1 codec replaced by the built-in byte<->rune map"},
+	})
+
+	c15 := func(thorough bool) []Inst {
+		var out []Inst
+		for _, in := range c02(false) {
+			a := append(append([]int64{}, in.Args...), 0)
+			out = append(out, Inst{Pkg: "knxnet", Fn: "HarnessC15Pack", Args: a, Unwind: 2000})
+			if a[2] <= 2 && a[3] <= 16 {
+				out = append(out, Inst{Pkg: "knxnet", Fn: "HarnessC15Send", Args: a, Unwind: 2000})
+			}
+		}
+		over := []int64{256, 300}
+		names := []int64{30, 31}
+		if thorough {
+			over = []int64{255, 256, 257, 300, 400, 511, 512, 600}
+			names = []int64{29, 30, 31, 32, 40, 60, 80}
+		}
+		for _, svc := range []int64{6, 8} {
+			for kind := int64(0); kind <= 2; kind++ {
+				for _, o := range over {
+					out = append(out, Inst{Pkg: "knxnet", Fn: "HarnessC15Pack", Args: []int64{svc, kind, o, 2, 0, 0, 0}, Unwind: 2000, Note: "oversize additional info"},
+						Inst{Pkg: "knxnet", Fn: "HarnessC15Pack", Args: []int64{svc, kind, 1, o, 0, 0, 0}, Unwind: 2000, Note: "oversize application data"})
+				}
+				out = append(out, Inst{Pkg: "knxnet", Fn: "HarnessC15Pack", Args: []int64{svc, kind, 1, 0, 0, 0, 0}, Unwind: 2000, Note: "empty application data"})
+			}
+		}
+		for _, svc := range []int64{10, 12} {
+			for _, nl := range names {
+				out = append(out, Inst{Pkg: "knxnet", Fn: "HarnessC15Pack", Args: []int64{svc, 0, 0, 0, 1, nl, 0}, Unwind: 2000, Note: "over-long friendly name"})
+			}
+			for _, nl := range []int64{1, 5, 29, 30, 40} {
+				out = append(out, Inst{Pkg: "knxnet", Fn: "HarnessC15Pack", Args: []int64{svc, 0, 0, 0, 1, nl, 1}, Unwind: 2000, Note: "name with a rune beyond Latin-1"})
+			}
+		}
+		return out
+	}
+	reg(&Spec{
+		ID:       "C15",
+		Quick:    func(l *loaded) []Inst { return c15(false) },
+		Thorough: func(l *loaded) []Inst { return c15(true) },
+		Covers:   []string{"C15.end", "C15.send.end"},
+		Bounds:   "every value shape of C02 (quick bounds) plus oversize parts: additional info and application data of {256,300} (thorough 255..600) bytes, empty application data, friendly names of {30,31} (thorough 29..80) characters and names with a rune beyond Latin-1; buffer of exactly Size() bytes pre-filled with symbolic stale bytes, followed by 8 guard bytes; TunnelSocket.Send through a recording net.Conn",
+		Outside:  "RouterSocket.Send (concrete *net.UDPConn; same three statements as TunnelSocket.Send); stale-independence is decided syntactically on the output terms (no output byte may mention a stale variable) and confirmed natively by re-running with different stale bytes",
+	})
+
+	reg(&Spec{
+		ID:     "C19",
+		Solver: "cvc5",
+		Quick: func(l *loaded) []Inst {
+			out := []Inst{{Pkg: "dpt", Fn: "HarnessC19Names", Unwind: 40000}}
+			for _, n := range dptNames(l) {
+				out = append(out, Inst{Pkg: "dpt", Fn: "HarnessC19Entry", Args: []int64{n[0], n[1]}})
+			}
+			for L := int64(0); L <= 8; L++ {
+				out = append(out, Inst{Pkg: "dpt", Fn: "HarnessC19Unknown", Args: []int64{L}, Unwind: 2000, Note: "every string of this length"})
+			}
+			return out
+		},
+		Extra:   c19Completeness,
+		Covers:  []string{"C19.entry.end", "C19.names.end", "C19.known", "C19.unknown"},
+		Bounds:  "the registry initialiser of the current source is executed; every listed name: producible, type name = *dpt.DPT_<digits>, instances distinct, a decode of a fully symbolic payload into one instance leaves other and later instances at the zero value; every string of length 0..8 (fully symbolic) is produced exactly when it is listed; completeness: every exported DPT_* type implementing Datapoint (enumerated with go/types) is the dynamic type of an entry",
+		Outside: "names longer than 8 bytes (the longest key has 7); concurrency: instances share no memory (distinct objects, decode writes only its receiver), so interleavings of Produce/Unpack calls are not explored separately",
+		Assume:  []string{"reflect.TypeOf(x).Elem() / reflect.New(t).Interface() are modelled as: fresh zero object of the pointee type", "three-digit sub-number is read as at least three digits (14.1200 is a genuine KNX identifier)"},
+	})
 }
 
 func dptWireLen(m int64) int64 {
